@@ -28,7 +28,7 @@ From AV Require Import Base.Bytes Base.Outcome Base.Utf8 Hash.HashModel Spec.Spe
   Xml.RoundTripLexer Xml.StrictValidDef Xml.ParserDepth Xml.RoundTripElem Xml.RoundTripFile Xml.TablesOk
   Xml.RoundTripCanonValues Xml.RoundTripCanon Xml.Utf8Closure Xml.RoundTripCanonFinal Xml.RoundTripCanonb Xml.RoundTripLexerComment Xml.ParserExamples Xml.RoundTripExamples
   Xml.RoundTripReload Xml.RoundTripReloadExamples Xml.RoundTripSetVersion
-  Xml.Reading Xml.ReadingLexer Xml.ReadingInterp Xml.ReadingParser Xml.ReadingExamples Xml.ReadingUnique.
+  Xml.Reading Xml.ReadingLexer Xml.ReadingInterp Xml.ReadingParser Xml.ReadingExamples Xml.ReadingUnique Xml.ReadingFunctional.
 From AV Require Import Spec.SpecTypes.
 From AV Require Import Spec.SpecReal Hash.HashRealElement Hash.HashRealAttr Hash.HashRealEnum.
 Open Scope list_scope.
@@ -528,3 +528,31 @@ Theorem C01_item_unique :
   forall (x y : xml) (r1 r2 : list N), WfX x -> WfX y -> render x ++ r1 = render y ++ r2 ->
   (is_xtext x = true -> at_markup r1) -> (is_xtext y = true -> at_markup r2) -> x = y /\ r1 = r2.
 Proof. exact item_unique. Qed.
+
+(* [U] the interpretation is a (partial) function of the plain XML tree (Xml/ReadingFunctional.v): one document has at most
+   one file version and one element tree *)
+Theorem C01_interp_functional :
+  forall (T : tables) (tab_el tab_at tab_en : nametab) (check_fn : N -> list N -> res bool) (float_parse : list N -> option N)
+         (d : doc) (ver1 : N) (t1 : etree) (ver2 : N) (t2 : etree),
+  InterpDoc T tab_el tab_at tab_en check_fn float_parse d ver1 t1 ->
+  InterpDoc T tab_el tab_at tab_en check_fn float_parse d ver2 t2 -> ver1 = ver2 /\ t1 = t2.
+Proof. exact InterpDoc_functional. Qed.
+
+(* [U] C01_faithful with uniqueness: the tree the loader returns is THE interpretation of THE reading of the byte string *)
+Theorem C01_faithful_unique :
+  forall (T : tables) (tab_el tab_at tab_en : nametab) (check_fn : N -> list N -> res bool) (float_parse : list N -> option N)
+         (b : bool) (bs : list N) (t : etree) (st : pstate),
+  names_clean tab_el = true -> names_clean tab_at = true ->
+  load b T tab_el tab_at tab_en check_fn float_parse bs = Val (Ret t st) -> p_warnings st = [] ->
+  exists d, Reads bs d /\ InterpDoc T tab_el tab_at tab_en check_fn float_parse d (p_version st) t /\
+    forall d' ver' t', Reads bs d' -> InterpDoc T tab_el tab_at tab_en check_fn float_parse d' ver' t' ->
+                       d' = d /\ ver' = p_version st /\ t' = t.
+Proof. exact load_faithful_unique. Qed.
+
+(* [F] where the interpretation deliberately follows the loader and not a naive reading: a Pattern value is the text itself,
+   its references are not decoded, although the text denotes "1.0.0;a&b" - which is what a String value is *)
+Theorem C01_pattern_not_decoded_example :
+  ValueOf tab_enum accept_all no_float 0 (SpecTypes.CPattern 24 None) (BS " 1.0.0;a&amp;b ") (DString (BS "1.0.0;a&amp;b")) /\
+  StrictValidEntities.Unesc (BS "1.0.0;a&amp;b") (BS "1.0.0;a&b") /\
+  ValueOf tab_enum accept_all no_float 0 (SpecTypes.CString false None) (BS " 1.0.0;a&amp;b ") (DString (BS "1.0.0;a&b")).
+Proof. exact pattern_not_decoded. Qed.
